@@ -17,7 +17,7 @@ type replayFile struct {
 	Howto      string `json:"howto"`
 }
 
-func conclude(p *Prog, prop, tier, outDir, verifDir string, obs []Ob, ran []string, start time.Time) int {
+func conclude(p *Prog, prop, tier, outDir, verifDir string, obs []Ob, ran []string, start time.Time, extra map[string]any) int {
 	floors := loadFloors(filepath.Join(verifDir, "lint", "spec", "floors.json"))
 	ff := loadFindings(filepath.Join(verifDir, "known_findings.json"))
 
@@ -108,6 +108,29 @@ func conclude(p *Prog, prop, tier, outDir, verifDir string, obs []Ob, ran []stri
 		"known_findings_matched": knownMatched,
 		"violations":          viol,
 	}
+	regress := 0
+	for k, v := range extra {
+		cov[k] = v
+	}
+	if extra != nil {
+		if n, ok := extra["config_differences"].(int); ok && n > 0 {
+			for _, v := range extra["variants"].([]variantResult) {
+				if strings.HasPrefix(v.Name, "config:") && v.Loaded && !v.Same {
+					for _, o := range v.obs {
+						if o.serves(prop) && o.Status != Discharged {
+							o.Inst = o.Inst + "@" + strings.TrimPrefix(v.Name, "config:")
+							if _, isKnown := known[o.key()]; !isKnown {
+								viol = append(viol, o)
+							}
+						}
+					}
+				}
+			}
+			cov["violations"] = viol
+		}
+		regress, _ = extra["checker_regressions"].(int)
+		cov["evaluations"] = len(mine) * (1 + len(extra["variants"].([]variantResult))) + extra["mutants_generated"].(int)
+	}
 	ev := Evidence{
 		PropertyID: prop, Tier: tier, Seed: seedFromEnv(), Level: "other", Coverage: cov,
 		Assumptions: []string{
@@ -127,6 +150,15 @@ func conclude(p *Prog, prop, tier, outDir, verifDir string, obs []Ob, ran []stri
 	}
 	fmt.Printf("klevlint: property=%s tier=%s rules=%s obligations=%d discharged=%d violations=%d known=%d (%.2fs; %d packages, %d functions)\n",
 		prop, tier, strings.Join(ran, ","), len(mine), discharged, len(viol), len(knownMatched), time.Since(start).Seconds(), p.Stats.Packages, p.Stats.Functions)
+	if regress > 0 && len(viol) == 0 {
+		for _, v := range extra["variants"].([]variantResult) {
+			if strings.HasPrefix(v.Name, "benign:") && v.Loaded && !v.Same {
+				fmt.Printf("CHECKER-REGRESSION: %s changes the verdict: %s\n", v.Name, strings.Join(v.Diff, "; "))
+			}
+		}
+		fmt.Println("klevlint: a behaviour-preserving transformation of the source changed the checker's verdict: the checker, not /repo, is at fault (exit 2, no verdict)")
+		return 2
+	}
 	if len(viol) > 0 {
 		rp := filepath.Join(outDir, "replay", prop+".json")
 		writeJSON(rp, replayFile{Property: prop, Tier: tier, Violations: viol, Howto: "./check.sh replay " + rp + "  (prints these records as compiler-style diagnostics; re-run ./check.sh " + prop + " quick to re-decide them on the current tree)"})
